@@ -304,6 +304,34 @@ def check_custom(t, m, names, nodes, known, ctx):
                     if text != "".join(l + "\n" for l in lines):
                         t.violation("C12: to_dotfile writes other lines than iteration", dict(ctx, engine="E2", module=MOD, exporter="dot",
                                     start=0, stop=[], filtered_out=[], maxlevel=None, names=names))
+    # options may be any iterable; custom functions are asked about admitted nodes / admitted pairs only
+    class NotAsked(Exception):
+        pass
+
+    hidden = m.n - 1
+    def guard(f):
+        def g(*nds):
+            if any(idm(x) == hidden for x in nds):
+                raise NotAsked("custom function called for the filtered-out node %d" % hidden)
+            return f(*nds)
+        return g
+    for which in ("dot", "unique") if m.n > 1 else ():
+        for opts in (tuple(options), (o for o in options)):
+            e = mk(exps[which], nodes[0], options=opts, indent=2, nodenamefunc=guard(namef), nodeattrfunc=guard(nattr),
+                   edgeattrfunc=guard(eattr), edgetypefunc=guard(etype), filter_=lambda n: idm(n) != hidden)
+            try:
+                lines = list(e)
+            except NotAsked as exc:
+                t.violation("C12: " + str(exc), dict(ctx, engine="E2", module=MOD, exporter=which, custom=True, start=0, stop=[],
+                            filtered_out=[hidden], maxlevel=None, names=names))
+                continue
+            t.c["custom_function_exports"] += 1
+            judge_export(t, m, names, which, lines, 0, (), (hidden,), None, dict(ctx, custom=True, indent=2), known,
+                         id_of=lambda v: ('N:"%s"\\%d' % (names[v], v)) if v % 4 != 3 else str(1000 + v),
+                         opts={"indent": 2, "options": options,
+                               "nodeattr": lambda v: (None if v % 2 else 'shape=box, label="%s"' % v) if v % 3 else "",
+                               "edgeattr": lambda a, b: (None if b % 2 else "label=%d_%d" % (a, b)) if b % 3 else "",
+                               "edgetype": lambda a, b: "--" if b % 3 else "-x-"})
     # esc(): recoverable and injective on the whole name alphabet
     from anytree.exporter import DotExporter
 
